@@ -59,6 +59,12 @@ T = {
             'Label table (n, m, uniform/mixed): all pairs in thorough, all m<=48 plus tie-break bands in quick; random maps over hostile shapes; parser half: '
             'reference trees with random valid label kinds (incl. zero-length), HashmapAug extras, random pruned subtrees through 7 parser entry points.',
             'R4 encoder/decoder validated on the pinned dictionary hash and by encoder/decoder identity'),
+    'C11': ('reference-model monitor (R1 pruning + R3-encoded shard states) for completeness + fault enumeration over forgery operators for soundness, with M-INV on every cell built',
+            'fault_enumeration', '4/C11',
+            'Honest proofs: every pruning subset of small trees / random prunings of larger ones through check_proof, block-shaped trees through '
+            'check_block_header_proof, reference-encoded ShardStateUnsplit + block through check_account_proof. Forgeries: other hash, non-Merkle roots (5 kinds), every '
+            'bit flip and 7 structural mutations of unpruned cells, substituted pruned hash/depth (stale and recomputed Merkle cell), 16 account-proof operators.',
+            'R1/R3 references; a forgery the library refuses to construct counts as rejected; operators outside the list not covered'),
     'C12': ('reference-model monitor: independent acceptance predicate (R7, PyNaCl verification) beside check_block_signatures over real keys, with fault '
             'enumeration of invalid/duplicated/foreign signature operators',
             'fault_enumeration', '4/C12',
